@@ -12,12 +12,15 @@ ID = "C16"
 LEVEL = "exploration"
 RULE = ("cases = subsets of the 11 RPCs of a three-service API (one service name a prefix of another, sharing an RPC name) whose type graph has sharing, nesting (a nested type referenced without its "
         "parent), recursion, enum-only and LRO-only files and resource references (thorough: all subsets of size 1, 2, n-1, n and 420 seeded others x {omit, "
-        "keep-as-internal}; quick: a seeded sample) plus settings naming unknown / other-version methods; the imported selective "
+        "keep-as-internal}; quick: a seeded sample) plus a compute-style API with extended operations (every subset of its 6 RPCs in the thorough tier: method and class "
+        "names, presence of the polling method a kept initiator needs, and the initiate-then-poll flow) and settings naming unknown / "
+        "other-version methods; the imported selective "
         "library's client methods and classes are compared with two closures computed on the input descriptors (need: must be present "
         "and usable; may: upper bound), every kept RPC is called against the loopback server and its path/payload/header judged, and "
         "in internal mode names must follow the '_method' / 'Base<Client>' rule; distinct = distinct (subset, mode) that held")
 ASSUMPTIONS = ["usable = instantiable, deserialize/serialize round trip and python-surface construction from random valuations",
-               "extended-operation services are not generated"]
+               "extended operations: names, classes and the initiate-then-poll flow are judged on a compute-style API (sel-xop cases); the "
+               "polling client is handed to the transport on the loopback channel (it would otherwise be built with default credentials)"]
 CASE_TIMEOUT = 300
 PARALLEL = 14
 
@@ -25,7 +28,8 @@ PARALLEL = 14
 def floors(tier):
     k = 1 if tier == "quick" else 3
     return {"subsets": 25 * k, "types_required_usable": 300 * k, "types_absent_confirmed": 150 * k, "kept_rpc_calls": 100 * k, "internal_cases": 8 * k,
-            "rejections_checked": 3, "emptied_service_cases": 5 * k}
+            "rejections_checked": 3, "emptied_service_cases": 5 * k,
+            "extended_operation_cases": 15 * k, "ext_op_flows": 10 * k}
 
 
 def all_rpcs(req):
@@ -52,6 +56,13 @@ def plan(seed, tier):
         internal = singles + small + rest[:300] + twins
     cases = [{"id": f"sel-{seed}-{i}", "seed": seed * 100003 + i, "subset": s, "internal": False} for i, s in enumerate(chosen)]
     cases += [{"id": f"sel-int-{seed}-{i}", "seed": seed * 100003 + 5000 + i, "subset": s, "internal": True} for i, s in enumerate(internal)]
+    # compute-style extended operations: initiating RPCs need the polling service's Get
+    xnames = ["Addresses.Insert", "Addresses.Delete", "Addresses.Get", "Addresses.List", "RegionOperations.Get", "RegionOperations.Wait"]
+    xsubs = [list(c) for r in range(1, len(xnames) + 1) for c in itertools.combinations(xnames, r)]
+    rng.shuffle(xsubs)
+    for i, sub in enumerate(xsubs[:10] if tier == "quick" else xsubs):
+        for internal in (False, True):
+            cases.append({"id": f"sel-xop-{seed}-{i}-{int(internal)}", "seed": seed * 100003 + 8000 + i, "subset": sub, "internal": internal, "extop": True})
     for i, b in enumerate(["unknown_method", "other_version", "unknown_service", "other_package"]):
         cases.append({"id": f"sel-bad-{seed}-{i}", "seed": seed * 100003 + 9000 + i, "subset": ["Library.GetShelf"], "internal": False, "bad": b})
     return cases
@@ -144,7 +155,76 @@ def closures(model, req, kept, pkg):
     return need, may, msgs, enums
 
 
+def run_extop(case):
+    """Selective generation over an API with extended operations: names, classes, and the polling flow of kept initiators."""
+    scratch = pipeline.case_scratch("c16")
+    rng = random.Random(case["seed"])
+    api = apigen.extop_api(rng, "x%d" % (case["seed"] % 100000))
+    pkg = api.info["pkg"]
+    listed = [f"{pkg}.{n}" for n in case["subset"]]
+    api.aux["service-yaml"] = ("svc.yaml", apigen.service_yaml(api, publishing=apigen.selective_publishing(pkg, listed, internal=case["internal"])))
+    req, g, lib = pipeline.build_and_generate(api, scratch)
+    mech = {"internal": case["internal"], "extended_operations": True}
+    if not g.ok:
+        return pipeline.gen_failed_result(g, api, mech)
+    services = {"Addresses": ["Insert", "Delete", "Get", "List"], "RegionOperations": ["Get", "Wait"]}
+    extended = {"Addresses.Insert", "Addresses.Delete"}
+    kept = set(case["subset"])
+    needs_polling = bool(kept & extended)
+    script = {"root_pkg": apigen.lib_root(api.info, api.options), "extop": True, "pkg": pkg,
+              "services": {sn: [rdm.py_method(m) for m in ms] for sn, ms in services.items()},
+              "flows": [n for n in sorted(kept & extended)]}
+    ev, rc, err = pipeline.run_runner("checks.c16", script, lib, timeout=200)
+    if ev is None or "runner_crash" in ev or "library_import_error" in ev:
+        return pipeline.runner_failed_result(ev, rc, err, api, mech)
+    viol, counters = [], {"extended_operation_cases": 1}
+
+    def bad(clause, detail, **extra):
+        viol.append({"clause": clause, "detail": detail, "mech": {**mech, **extra}})
+
+    for sn, ms in services.items():
+        seen = ev["clients"].get(sn, {})
+        exp_names = set()
+        keptm = [m for m in ms if f"{sn}.{m}" in kept]
+        for m in ms:
+            py, ext = rdm.py_method(m), f"{sn}.{m}" in extended
+            if f"{sn}.{m}" in kept:
+                exp_names |= {py} | ({py + "_unary"} if ext else set())
+            elif case["internal"]:
+                exp_names |= {"_" + py} | ({"_" + py + "_unary"} if ext else set())
+            elif sn == api.info["polling"][0] and m == api.info["polling"][1] and needs_polling:
+                # omit mode: "(plus an extended-operation polling method they need)" — present under its own name
+                exp_names |= {py}
+        if case["internal"]:
+            cls = ("Base" if len(keptm) != len(ms) else "") + sn + "Client"
+        else:
+            cls = sn + "Client" if exp_names else None
+        counters["ext_op_surface_checks"] = counters.get("ext_op_surface_checks", 0) + 1
+        if cls is None:
+            if seen:
+                bad("emptied-service-kept", {"service": sn, "seen": sorted(seen)})
+            continue
+        if cls not in seen:
+            bad("internal-client-name" if case["internal"] else "kept-service-missing", {"service": sn, "expected": cls, "seen": sorted(seen)})
+            continue
+        if set(seen[cls]) != exp_names:
+            bad("internal-method-names" if case["internal"] else "method-set",
+                {"service": sn, "expected": sorted(exp_names), "seen": sorted(seen[cls])})
+    for fl in ev.get("flows", []):
+        counters["ext_op_flows"] = counters.get("ext_op_flows", 0) + 1
+        if fl.get("error"):
+            bad("kept-rpc-raised", {"rpc": fl["rpc"], "why": fl["error"]}, flow="extended-operation")
+        elif fl.get("paths") != [f"/{pkg}.{fl['rpc'].split('.')[0]}/{fl['rpc'].split('.')[1]}", f"/{pkg}.RegionOperations/Get"] or not fl.get("done"):
+            bad("extended-operation-flow", {"rpc": fl["rpc"], "paths": fl.get("paths"), "done": fl.get("done")})
+    return {"verdict": "violated" if viol else "held", "violations": pipeline.diverse(viol, 40),
+            "evaluations": counters.get("ext_op_surface_checks", 0) + counters.get("ext_op_flows", 0),
+            "nontrivial_sigs": [] if viol else [f"xop|{'+'.join(case['subset'])}|internal={case['internal']}"], "counters": counters,
+            "sample": {"kept": case["subset"], "internal": case["internal"], "clients": ev["clients"]}}
+
+
 def run_case(case):
+    if case.get("extop"):
+        return run_extop(case)
     scratch = pipeline.case_scratch("c16")
     api = build_api(case)
     req0 = api.request(scratch)
@@ -311,6 +391,8 @@ def in_runner(script):
     from vlib.rdm import decode_py
     lib = rt.Lib(script["root_pkg"])
     root = lib.root
+    if script.get("extop"):
+        return extop_runner(script, lib, root)
     out = {"types": [], "clients": {}, "calls": []}
     for it in script["types"]:
         r = {"present": False}
@@ -363,5 +445,51 @@ def in_runner(script):
         except BaseException as e:  # noqa
             o["error"] = rt.exc_info(e)
         out["calls"].append(o)
+    srv.stop()
+    return out
+
+
+def extop_runner(script, lib, root):
+    import grpc
+    from vlib import rt
+    out = {"clients": {}, "flows": []}
+    for sn, methods in script["services"].items():
+        info = {}
+        for cname in (sn + "Client", "Base" + sn + "Client"):
+            cls = getattr(root, cname, None)
+            if isinstance(cls, type):
+                cands = set()
+                for m in methods:
+                    cands |= {m, "_" + m, m + "_unary", "_" + m + "_unary"}
+                info[cname] = sorted(c for c in cands if callable(getattr(cls, c, None)))
+        out["clients"][sn] = info
+    srv = rt.GrpcServer()
+    pkg = script["pkg"]
+    Op = lib.msg_cls(pkg + ".Operation")
+    for name in script["flows"]:
+        sn, m = name.split(".")
+        o = {"rpc": name}
+        try:
+            cname = sn if hasattr(root, sn + "Client") else "Base" + sn
+            C = getattr(root, cname + "Client")
+            client = C(transport=C.get_transport_class("grpc")(channel=grpc.insecure_channel(srv.target)))
+            # the transport would build the polling client with default credentials and endpoint: hand it one on our channel
+            pname = "RegionOperations" if hasattr(root, "RegionOperationsClient") else "BaseRegionOperations"
+            PC = getattr(root, pname + "Client")
+            client._transport._extended_operations_services["region_operations"] = PC(
+                transport=PC.get_transport_class("grpc")(channel=grpc.insecure_channel(srv.target)))
+            running = Op(name="op-1", status=Op.Status.RUNNING)
+            done = Op(name="op-1", status=Op.Status.DONE)
+            srv.script(f"/{pkg}.{sn}/{m}", [{"payloads": [rt.b64(Op.serialize(running))]}])
+            srv.script(f"/{pkg}.RegionOperations/Get", [{"payloads": [rt.b64(Op.serialize(done))]}], sticky={"payloads": [rt.b64(Op.serialize(done))]})
+            mark = srv.mark()
+            Req = lib.msg_cls(pkg + "." + {"Insert": "InsertAddressRequest", "Delete": "DeleteAddressRequest"}[m])
+            fut = getattr(client, m.lower())(request=Req(project="p1", region="r1"))
+            fut.result(timeout=30)
+            o["done"] = bool(fut.done())
+            o["paths"] = [e["method"] for e in srv.since(mark)]
+        except BaseException as e:  # noqa
+            o["error"] = rt.exc_info(e)
+        out["flows"].append(o)
     srv.stop()
     return out
